@@ -331,7 +331,26 @@ func TestP3PS(t *testing.T) {
 	ev.SetupRapid(100000, 2000000)
 	rapid.Check(t, func(t *rapid.T) {
 		if rapid.IntRange(0, 3).Draw(t, "kind") == 0 {
-			n := rapid.StringMatching(`[!-$&'*-.0-;=?-Z\\^-z|~\x80-\xff]{0,12}`).Draw(t, "name")
+			// names are byte strings: any regular byte 0x21-0xff except the
+			// delimiters, singly and in runs that form UTF-8 sequences (also
+			// of code points whose low byte is a delimiter or white space,
+			// such as U+0120, U+0128, U+012F, U+2125)
+			var nb []byte
+			for i, ln := 0, rapid.IntRange(0, 12).Draw(t, "namelen"); i < ln; i++ {
+				switch rapid.IntRange(0, 3).Draw(t, "namepiece") {
+				case 0:
+					nb = append(nb, []byte(string(rune(rapid.SampledFrom([]int{0x120, 0x128, 0x129, 0x12f, 0x125, 0x13c, 0x13e, 0x15b, 0x15d, 0x17b, 0x17d, 0x2125, 0x2020, 0x200a, 0x10028, 0xe9, 0xff}).Draw(t, "namerune"))))...)
+				case 1:
+					nb = append(nb, byte(rapid.IntRange(0x80, 0xff).Draw(t, "namehigh")))
+				default:
+					c := byte(rapid.IntRange(0x21, 0x7e).Draw(t, "namebyte"))
+					if strings.IndexByte("()<>[]{}/%", c) >= 0 {
+						c = 'n'
+					}
+					nb = append(nb, c)
+				}
+			}
+			n := string(nb)
 			rec.Eval(1)
 			rec.NonTrivialHash(ev.Hash("n" + n))
 			msg := ev.Safe(func() string {
